@@ -23,6 +23,8 @@ URI_POOL_ADVERSARIAL = [
     "http://zv.test/ns/Case", "http://zv.test/ns/case", "http://zv.test/sch", "https://zv.test/sch", "http://zv.test/frag",
     "http://zv.test/frag#", "http://zv.test:80/sch", "http://ZV.test/sch", "http://zv.test/a%20b", "http://zv.test/a%2Fb",
     "http://zv.test/a/b", "urn:zv:Case", "urn:zv:case", "http://zv.test/ns/../ns/orders",
+    # abbreviations that would start with "xml" (a prefix reserved by XML itself)
+    "http://zv.test/xml", "http://zv.test/ns/xmlns", "urn:zv:XML-types", "http://zv.test/xmlschema/ext",
 ]
 # URIs that zeep's three-letter abbreviation scheme maps to the same (or a confusable) abbreviation
 COLLISION_GROUPS = [
@@ -41,6 +43,7 @@ COLLISION_GROUPS = [
     ["http://zv.test/ns/Case", "http://zv.test/ns/case", "urn:zv:Case", "urn:zv:case"],
     ["http://zv.test/sch", "https://zv.test/sch", "http://zv.test:80/sch", "http://ZV.test/sch"],
     ["http://zv.test/frag", "http://zv.test/frag#"],
+    ["http://zv.test/xml", "http://zv.test/ns/xmlns", "urn:zv:XML-types", "http://zv.test/xmlschema/ext"],
     ["http://zv.test/a%2Fb", "http://zv.test/a/b", "http://zv.test/a%20b"],
 ]
 PREFIX_POOL = ["tns", "t", "ns1", "ns2", "a", "b", "m", "typ", "msg", "q", "p", "x", "s1", "core", "base"]
@@ -315,6 +318,15 @@ class Gen:
                 f.min_inclusive = lo
             elif k < 0.8 and hi + 1 <= 2**31 - 1:
                 f.max_exclusive = hi + 1
+            if st.base.builtin and ub in ("long", "unsignedInt", "unsignedLong", "integer", "nonNegativeInteger", "positiveInteger") \
+                    and r.random() < self.cfg.get("wide_facets", 0.0):
+                # bounds that are legal for the base type but do not fit an i32 (compile-only profiles: the emitted restriction
+                # record holds i32 bounds, what zeep does with a wider one is its business as long as the file compiles)
+                f.min_inclusive = f.min_exclusive = f.max_exclusive = None
+                f.max_inclusive = r.choice([4294967295, 2**31, 9999999999, 2**63 - 1 if ub != "unsignedInt" else 4294967295])
+                if ub in ("long", "integer") and r.random() < 0.5:
+                    f.min_inclusive = r.choice([-2**31 - 1, -9999999999])
+                self.features.add("facet-bound-beyond-i32")
         elif ub in STRING_BUILTINS:
             k = r.random()
             if k < 0.3:
